@@ -119,6 +119,18 @@ func TestVerifC12(t *testing.T) {
 			return nil
 		}
 		rep.Count("authorize_ok", 1)
+		// the code has to be presented "before it expires": a real code's window is minutes (the implementation says 5;
+		// RFC 6749 recommends at most 10), counted from the authorization
+		if _, pl, _, ok := verifSplitJWS(lu.Query().Get("code")); ok {
+			var cl verifClaims
+			if json.Unmarshal(pl, &cl) == nil {
+				exp := verifClaimInt(cl, "exp")
+				rep.Count("code_lifetimes_checked", 1)
+				if exp == 0 || exp > after.Unix()+600 {
+					rep.Violate("C12/code-lifetime-unbounded", fmt.Sprintf("an authorization code minted now expires %d s after the authorization (exp=%d)", exp-after.Unix(), exp), map[string]interface{}{"client": client, "exp": exp, "authorized_at": after.Unix()})
+				}
+			}
+		}
 		return &c12Code{Name: name, Code: lu.Query().Get("code"), Client: client, User: user, Redirect: redirect,
 			Nonce: nonce, Challenge: challenge, Method: method, Valid: true, AuthAfter: after}
 	}
@@ -381,5 +393,7 @@ func TestVerifC12(t *testing.T) {
 	rep.Floor("released_pkce-client", 4)
 	rep.Floor("tokens_decoded_ok", 10)
 	rep.Floor("refused", 500)
+	rep.Floor("code_lifetimes_checked", 5)
+	rep.Assume("'before it expires': a real authorization code must expire within 10 minutes of the authorization (RFC 6749 4.1.2; the implementation's constant is 5 minutes)")
 	rep.Extra["codes"] = len(codes)
 }
